@@ -32,8 +32,10 @@ import (
 	"net"
 	"os"
 	"path/filepath"
+	"runtime"
 	"sort"
 	"strings"
+	"sync"
 	"time"
 
 	"github.com/BurntSushi/toml"
@@ -1248,11 +1250,8 @@ func C12Run(e *C12Env, c C12Case, entry C12Entry) (res C12Result) {
 		res.Harness = "client message: " + err.Error()
 		return
 	}
-	tt := pb.TransportType(q.Transport)
-	disabled := q.Disable != nil && *q.Disable
 	forgedResp := C12ForgedResponse(q.Forged)
 	forgedRB, forgedSig := C12ForgedSig(q.Forged)
-	forgedAny := forgedResp != nil || len(forgedRB) > 0 || len(forgedSig) > 0
 	if forgedResp != nil {
 		res.class("forged-response")
 	}
@@ -1281,7 +1280,20 @@ func C12Run(e *C12Env, c C12Case, entry C12Entry) (res C12Result) {
 		res.bad("forward:count", "the registrar answered the client but handed %d messages to the ZMQ sender (want 1)", len(pr.Sender.Sent))
 		return
 	}
-	msg := pr.Sender.Sent[0]
+	c12Judge(e, c, pr, selSta, respBytes, pr.Sender.Sent[0], &res)
+	return
+}
+
+// c12Judge evaluates the oracle for one accepted registration: what the client received (respBytes,
+// bidirectional only) against the message handed to the ZMQ sender for it (msg) and against what a
+// station ingesting that message ends up with.
+func c12Judge(e *C12Env, c C12Case, pr *C12Proc, selSta *phantoms.PhantomIPSelector, respBytes, msg []byte, res *C12Result) {
+	q := c.Req
+	tt := pb.TransportType(q.Transport)
+	disabled := q.Disable != nil && *q.Disable
+	forgedResp := C12ForgedResponse(q.Forged)
+	forgedRB, forgedSig := C12ForgedSig(q.Forged)
+	forgedAny := forgedResp != nil || len(forgedRB) > 0 || len(forgedSig) > 0
 	fwd, want4, want6, r4, r6, e4, e6, err := c12Station(e, selSta, msg)
 	if err != nil {
 		res.bad("forward:undecodable", "forwarded bytes do not decode as a C2SWrapper: %v", err)
@@ -1869,5 +1881,276 @@ func C12RunUsage(e *C12Env, u C12UsageCase) (res C12Result, rows []C12UsageRow) 
 	}
 	res.NonTrivial = multi
 	sort.Strings(res.Classes)
+	return
+}
+
+// ---------------------------------------------------------------------------------------------
+// Concurrency: registrations in flight at the same time keep their own message
+// ---------------------------------------------------------------------------------------------
+
+// C12ConcClient is one client of a concurrent case.
+type C12ConcClient struct {
+	Bidir bool       `json:"bidirectional"`
+	Req   C12Request `json:"request"`
+}
+
+// C12ConcCase is a case of the concurrent sub-check: one registrar, K different clients registering
+// at the same time while the socket is slow for whichever send comes first.
+type C12ConcCase struct {
+	Phantoms []C12PhGen      `json:"phantoms"`
+	Reg      C12Registrar    `json:"registrar"`
+	Clients  []C12ConcClient `json:"clients"`
+	Procs    int             `json:"gomaxprocs"` // 0 = leave as is
+	HoldUS   int             `json:"hold_us"`    // how long the first send stays inside the socket after every client has started
+}
+
+// C12GenConc draws a concurrent case. Clients are ordinary generated (possibly hostile) requests with
+// the secret replaced by a distinct 32-byte one, so every forwarded message can be attributed.
+func C12GenConc(rt *rapid.T) C12ConcCase {
+	c := C12ConcCase{Phantoms: c12GenPhantoms(rt), Reg: c12GenRegistrar(rt)}
+	c.Procs = rapid.SampledFrom([]int{1, 1, 1, 2, 0, 0}).Draw(rt, "gomaxprocs")
+	c.HoldUS = rapid.SampledFrom([]int{300, 1000, 1000, 3000}).Draw(rt, "hold_us")
+	k := rapid.IntRange(4, 16).Draw(rt, "clients")
+	for i := 0; i < k; i++ {
+		bidir := rapid.SampledFrom([]bool{true, true, true, false}).Draw(rt, "bidirectional")
+		q := c12GenRequest(rt, c.Phantoms, bidir)
+		h := sha256.Sum256(append([]byte{byte(i), 0xC1, 0x2C}, q.Secret...))
+		h[0], h[1] = 0xC0+byte(i>>4), byte(i)<<4|0x0C
+		q.Secret = vh.Hex(h[:])
+		c.Clients = append(c.Clients, C12ConcClient{Bidir: bidir, Req: q})
+	}
+	return c
+}
+
+// c12GateSender copies every message at call time (as libzmq does). The first send stays inside the
+// socket — its caller holds the registrar's publish lock — until every client goroutine has started
+// and a little longer, so that the other registrations pile up between "message built" and "message
+// sent". Later sends yield once.
+type c12GateSender struct {
+	mu      sync.Mutex
+	sent    [][]byte
+	started *sync.WaitGroup
+	hold    time.Duration
+}
+
+func (s *c12GateSender) SendBytes(b []byte, _ zmq.Flag) (int, error) {
+	cp := append([]byte(nil), b...)
+	s.mu.Lock()
+	s.sent = append(s.sent, cp)
+	first := len(s.sent) == 1
+	s.mu.Unlock()
+	if first {
+		s.started.Wait()
+		// let the others run up to the publish lock: yields for a single P, a short sleep for several
+		for i := 0; i < 64; i++ {
+			runtime.Gosched()
+		}
+		time.Sleep(s.hold)
+		for i := 0; i < 64; i++ {
+			runtime.Gosched()
+		}
+	} else {
+		runtime.Gosched()
+	}
+	return len(b), nil
+}
+func (s *c12GateSender) Close() error { return nil }
+
+type c12ConcOut struct {
+	resp []byte
+	ok   bool
+	note string
+}
+
+// C12RunConc runs the clients concurrently through one registrar, then sequentially through an
+// identical one, and judges every registration.
+func C12RunConc(e *C12Env, c C12ConcCase) (res C12Result) {
+	selReg, selSta, err := e.selectors(c.Phantoms)
+	if err != nil {
+		res.Harness = "phantom configuration: " + err.Error()
+		return
+	}
+	pr, err := C12NewProc(e, c.Reg, selReg)
+	if err != nil {
+		res.Harness = "registrar configuration: " + err.Error()
+		return
+	}
+	ref, err := C12NewProc(e, c.Reg, selReg)
+	if err != nil {
+		res.Harness = "registrar configuration: " + err.Error()
+		return
+	}
+	k := len(c.Clients)
+	cases := make([]C12Case, k)
+	msgs := make([][]byte, k)
+	for i, cl := range c.Clients {
+		cases[i] = C12Case{Bidir: cl.Bidir, Phantoms: c.Phantoms, Reg: c.Reg, Req: cl.Req}
+		if msgs[i], err = C12ClientBytes(cl.Req); err != nil {
+			res.Harness = "client message: " + err.Error()
+			return
+		}
+		for j := 0; j < i; j++ {
+			if bytes.Equal(c.Clients[j].Req.Secret, cl.Req.Secret) {
+				res.Harness = fmt.Sprintf("clients %d and %d share a secret", j, i)
+				return
+			}
+		}
+	}
+
+	// --- concurrent phase ----------------------------------------------------------------------
+	var started, done sync.WaitGroup
+	started.Add(k)
+	done.Add(k)
+	gate := &c12GateSender{started: &started, hold: time.Duration(c.HoldUS) * time.Microsecond}
+	pr.RP.sock = gate
+	if c.Procs > 0 {
+		defer runtime.GOMAXPROCS(runtime.GOMAXPROCS(c.Procs))
+	}
+	out := make([]c12ConcOut, k)
+	for i := 0; i < k; i++ {
+		go func(i int) {
+			defer done.Done()
+			started.Done()
+			b, ok, note := C12DirectEntry(pr, msgs[i], cases[i])
+			out[i] = c12ConcOut{resp: b, ok: ok, note: note}
+		}(i)
+	}
+	fin := make(chan struct{})
+	go func() { done.Wait(); close(fin) }()
+	select {
+	case <-fin:
+	case <-time.After(60 * time.Second):
+		res.Harness = "concurrent registrations did not finish within 60 s"
+		return
+	}
+	gate.mu.Lock()
+	sent := gate.sent
+	gate.mu.Unlock()
+
+	res.class(fmt.Sprintf("gomaxprocs=%d", c.Procs))
+	if k >= 8 {
+		res.class("clients>=8")
+	}
+	if c.Reg.Auth {
+		res.class("authenticated")
+	} else {
+		res.class("unauthenticated")
+	}
+
+	// --- attribute the forwarded messages by shared secret ---------------------------------------
+	mine := make([][]int, k)
+	var stray []string
+	for m, b := range sent {
+		w := &pb.C2SWrapper{}
+		owner := -1
+		if err := proto.Unmarshal(b, w); err == nil {
+			for i := range c.Clients {
+				if bytes.Equal(w.GetSharedSecret(), c.Clients[i].Req.Secret) {
+					owner = i
+				}
+			}
+		}
+		if owner < 0 {
+			stray = append(stray, fmt.Sprintf("#%d(%d bytes)", m, len(b)))
+			continue
+		}
+		mine[owner] = append(mine[owner], m)
+	}
+	accepted := 0
+	var tally []string
+	for i := range c.Clients {
+		if out[i].ok {
+			accepted++
+		}
+		tally = append(tally, fmt.Sprintf("client%d:accepted=%v,messages=%d", i, out[i].ok, len(mine[i])))
+	}
+	if len(stray) > 0 {
+		res.bad("concurrent:message-count", "%d clients registered at once (%d accepted); forwarded messages %v belong to none of them (undecodable or foreign secret); %s", k, accepted, stray, strings.Join(tally, " "))
+		return
+	}
+	for i := range c.Clients {
+		want := 0
+		if out[i].ok {
+			want = 1
+		}
+		if len(mine[i]) != want {
+			res.bad("concurrent:message-count", "%d clients registered at once; client %d (accepted=%v) has %d messages among the %d handed to the ZMQ sender, want %d; %s", k, i, out[i].ok, len(mine[i]), len(sent), want, strings.Join(tally, " "))
+			return
+		}
+	}
+	if accepted >= 2 {
+		res.class("several-accepted-at-once")
+	}
+	if accepted >= 4 {
+		res.class("four-or-more-accepted-at-once")
+	}
+
+	// --- sequential reference + per-registration oracle -----------------------------------------
+	for i := range c.Clients {
+		before := len(ref.Sender.Sent)
+		_, okSeq, noteSeq := C12DirectEntry(ref, msgs[i], cases[i])
+		if okSeq != out[i].ok {
+			res.bad("concurrent:acceptance-differs", "client %d: registering alone gives accepted=%v (%s), registering together with %d others gave accepted=%v (%s)", i, okSeq, noteSeq, k-1, out[i].ok, out[i].note)
+			return
+		}
+		if !out[i].ok {
+			res.class("refused")
+			continue
+		}
+		res.class("accepted")
+		if cases[i].Bidir {
+			res.class("bidirectional")
+		} else {
+			res.class("unidirectional")
+		}
+		if len(ref.Sender.Sent) != before+1 {
+			res.Harness = fmt.Sprintf("sequential reference run forwarded %d messages for client %d", len(ref.Sender.Sent)-before, i)
+			return
+		}
+		got, want := &pb.C2SWrapper{}, &pb.C2SWrapper{}
+		if proto.Unmarshal(sent[mine[i][0]], got) != nil || proto.Unmarshal(ref.Sender.Sent[before], want) != nil {
+			res.Harness = "attributed message no longer decodes"
+			return
+		}
+		// fields that do not depend on the registrar's random choices must be what a run of this
+		// registration alone forwards
+		diff := func(field string, a, b any) {
+			res.bad("concurrent:differs-from-sequential", "client %d of %d: forwarded %s is %v, a run of the same registration alone forwards %v", i, k, field, a, b)
+		}
+		switch {
+		case !proto.Equal(got.GetRegistrationPayload(), want.GetRegistrationPayload()):
+			diff("registration_payload", got.GetRegistrationPayload(), want.GetRegistrationPayload())
+		case got.GetRegistrationSource() != want.GetRegistrationSource() || (got.RegistrationSource == nil) != (want.RegistrationSource == nil):
+			diff("registration_source", got.RegistrationSource, want.RegistrationSource)
+		case !bytes.Equal(got.GetRegistrationAddress(), want.GetRegistrationAddress()):
+			diff("registration_address", net.IP(got.GetRegistrationAddress()), net.IP(want.GetRegistrationAddress()))
+		case (got.RegistrationResponse == nil) != (want.RegistrationResponse == nil):
+			diff("registration_response presence", got.RegistrationResponse != nil, want.RegistrationResponse != nil)
+		case !bytes.Equal(got.GetRegistrationResponse().GetIpv6Addr(), want.GetRegistrationResponse().GetIpv6Addr()):
+			diff("IPv6 phantom", net.IP(got.GetRegistrationResponse().GetIpv6Addr()), net.IP(want.GetRegistrationResponse().GetIpv6Addr()))
+		case !c.Reg.Enforce && got.GetRegistrationResponse().GetIpv4Addr() != want.GetRegistrationResponse().GetIpv4Addr():
+			diff("IPv4 phantom", c12V4(got.GetRegistrationResponse().GetIpv4Addr()), c12V4(want.GetRegistrationResponse().GetIpv4Addr()))
+		case !c.Reg.Enforce && got.GetRegistrationResponse().GetDstPort() != want.GetRegistrationResponse().GetDstPort():
+			diff("port", got.GetRegistrationResponse().GetDstPort(), want.GetRegistrationResponse().GetDstPort())
+		case (len(got.GetRegRespSignature()) == 0) != (len(want.GetRegRespSignature()) == 0):
+			diff("signature presence", len(got.GetRegRespSignature()) > 0, len(want.GetRegRespSignature()) > 0)
+		}
+		if len(res.Findings) > 0 {
+			return
+		}
+		var sub C12Result
+		c12Judge(e, cases[i], pr, selSta, out[i].resp, sent[mine[i][0]], &sub)
+		if sub.Harness != "" {
+			res.Harness = sub.Harness
+			return
+		}
+		for _, f := range sub.Findings {
+			res.bad(f.Key, "client %d of %d registering at once: %s", i, k, f.Msg)
+		}
+		if len(res.Findings) > 0 {
+			return
+		}
+	}
+	res.NonTrivial = accepted >= 2
 	return
 }
